@@ -16,6 +16,8 @@ regenerated on every run:
 * `*_rows_complete`: the rows are exactly the item enum's variants, exactly the file section's fields and exactly the
   result structure's fields, each once — no item is dropped, none is layered twice (the deprecated `toggle-privacy`
   binding, which `build_config` rejects, is the one item that is not layered);
+* `ui_rows_aligned`: what `make_tui_config` hands the user interface (`Theme::from`, `Bindings::from`) takes every field
+  from the field of the same name;
 * `layer_*`: the precedence law of the stanza shape.
 -/
 namespace TV.Props.ItemTables
@@ -51,6 +53,12 @@ theorem binding_rows_complete :
     SameSet (bindingRows.map (·.2.2.1) ++ notLayered) bindingFileFields ∧
     SameSet (bindingRows.map (·.1)) bindingResultFields := by decide
 
+/-- **the user interface gets every option under its own name**: `Theme::from(TuiTheme)` and
+`Bindings::from(TuiBindings)` convert field `f` from field `f`, for exactly the fields of the configuration -/
+theorem ui_rows_aligned :
+    (∀ r ∈ themeUiRows, r.1 = r.2) ∧ SameSet (themeUiRows.map (·.1)) themeResultFields ∧
+    (∀ r ∈ bindingUiRows, r.1 = r.2) ∧ SameSet (bindingUiRows.map (·.1)) bindingResultFields := by decide
+
 /-- non-vacuity: the tables are not empty -/
 theorem tables_nonempty : themeRows.length = themeItems.length ∧ 0 < themeRows.length ∧
     bindingRows.length + 1 = bindingItems.length ∧ 0 < bindingRows.length := by decide
@@ -62,5 +70,6 @@ theorem tables_nonempty : themeRows.length = themeItems.length ∧ 0 < themeRows
 #print axioms binding_rows_aligned
 #print axioms theme_rows_complete
 #print axioms binding_rows_complete
+#print axioms ui_rows_aligned
 #print axioms tables_nonempty
 end TV.Props.ItemTables
